@@ -75,6 +75,23 @@ def generate(tier, rng):
                     m = rng.choice([None, None, 0, 1, 2, 3, h, h + 1])
                     for k in KINDS:
                         yield _case(t, start, k, fo, st, m)
+    # scale: wide/deep trees with large maxlevels and big stop/filter sets
+    for sh in gen.big_shapes(rng, tier):
+        t = gen.labelled(sh, rng, True)
+        labs = gen.tree_labels(t)
+        dl = gen.deep_labels(t)
+        h = gen.tree_height(t)
+        for start in [t[0], dl[len(dl) // 2]]:
+            st = gen.random_subset(rng, labs, rng.choice([0, 0.02, 0.1]))
+            fo = gen.random_subset(rng, labs, rng.choice([0, 0.1, 0.5]))
+            m = rng.choice([None, 1, 2, 16, 17, 32, 33, 64, 65, h // 2, h, h + 1, 1000] + ([255, 256, 257, 258, 259, h - 1, h - 2] if h > 256 else []))
+            for k in KINDS:
+                yield _case(t, start, k, fo, st, m)
+        if h > 256:
+            # level counters beyond the small-int cache (256): maxlevel just above it, cutting a still deeper tree
+            for m in (256, 257, 258, h - 1):
+                for k in KINDS:
+                    yield _case(t, t[0], k, [], [], m)
     nrand = 400 if tier == "quick" else 6000
     big = 12 if tier == "quick" else 40
     for _ in range(nrand):
